@@ -859,6 +859,12 @@ def operator_call(eng, n, st):
             f = vals[0]
             if isinstance(f, Lam):
                 raise Unsupported('indirect lambda call')
+            hookm = getattr(eng.cur_contract, 'on_pymethod_call', None)
+            if isinstance(f, PyMethod) and hookm is not None:
+                rm = hookm(eng, s, f, vals[1:], n)
+                if rm is not None:
+                    outs += rm
+                    continue
             if isinstance(f, PyMethod) and f.name == 'copy':
                 src = f.obj
                 r = fresh('list_copy', Ref)
@@ -1115,7 +1121,11 @@ def construct(eng, n, st):
             elif len(vals) == 1 and isinstance(vals[0], Opaque) and vals[0].tag.startswith('pyid:'):
                 outs.append((s, vals[0]))          # interned attribute name
             elif short == 'cpp_function':
-                outs.append((s, PyObj(fresh('cpp_function', Ref), fresh=True)))
+                fobj = PyObj(fresh('cpp_function', Ref), fresh=True)
+                hook = getattr(eng.cur_contract, 'on_cpp_function', None)
+                if hook:
+                    hook(eng, s, fobj, vals, n)
+                outs.append((s, fobj))
             else:
                 raise Unsupported(f'construction of {t} from {vals!r} at L{line}')
         return outs
